@@ -10,7 +10,7 @@ git -C /repo worktree add -q --detach $wt HEAD || exit 2
 trap 'git -C /repo worktree remove --force $wt' EXIT
 cd $wt
 demo_pkgs=""
-for f in $d/*_test.go; do
+for f in $d/*_test.go $d/_*/*_test.go; do
   [ -e "$f" ] || continue
   pkg=$(grep -m1 '^package ' $f | awk '{print $2}')
   dest=$(cat $d/demo_dir 2>/dev/null || true)
